@@ -38,12 +38,18 @@ type typedPkg struct {
 	Impls    map[string][]reflect.Type
 	Ops      []string
 	Webhooks map[string]string // webhook operation -> webhook name
+	WithURL  any               // func(context.Context, *url.URL) context.Context: the per-call override of the server URL, if any
 }
 
 // typedClients is what a typed scenario calls: the client, and the webhook client if the package has one.
 type typedClients struct {
 	api, webhook any
 	webhooks     map[string]string
+	// override: every call of the scenario overrides the server URL with this one URL value, which the caller owns
+	// and shares between its calls (the same text the client was constructed with)
+	override     *url.URL
+	overrideText string
+	withURL      func(context.Context, *url.URL) context.Context
 }
 
 // ---------------------------------------------------------------- trees
@@ -1290,6 +1296,9 @@ func doTyped(ctx context.Context, cls *typedClients, impls map[string][]reflect.
 		}
 	} else {
 		m = reflect.ValueOf(cls.api).MethodByName(c.TOp)
+		if cls.override != nil && cls.withURL != nil {
+			ctx = cls.withURL(ctx, cls.override)
+		}
 	}
 	if !m.IsValid() {
 		tr.Harness = "no client method " + c.TOp
